@@ -755,6 +755,24 @@ def follow_up(ex, d, case, problems, where):
             continue
         want = expected_stitch(ex, st, b)
         gp = [g['apath'] for g in got]
+        # "once its header exists the interrupted version is listed as incomplete": the version list is built from
+        # Band::open + Band::get_info, which must succeed and say closed exactly for a band with a complete tail
+        try:
+            bo = A.run_async(ex, A.fn_by(ex.prog, 'Band', None, 'open'), [Ref([ar], 0), Agg('bandid::BandId', None, [b])])
+            if bo.variant != 0:
+                problems.append('%s: band b%04d cannot be opened for the version list: %s' % (where, b, variant_name(ex, bo.fields[0])))
+            else:
+                gi = A.run_async(ex, A.fn_by(ex.prog, 'Band', None, 'get_info'), [Ref([bo.fields[0]], 0)])
+                if gi.variant != 0:
+                    problems.append('%s: band b%04d cannot be described for the version list: %s' % (where, b, variant_name(ex, gi.fields[0])))
+                else:
+                    closed_ = field(ex, gi.fields[0], 'band::Info', 'is_closed')
+                    if bool(closed_) != bool(bands[b]['tail']):
+                        problems.append('%s: band b%04d is listed as %s but its tail is %s' % (
+                            where, b, 'complete' if closed_ else 'incomplete',
+                            'complete' if bands[b]['tail'] else 'a zero-length leftover' if bands[b].get('tail_empty') else 'absent'))
+        except Panic as p:
+            problems.append('%s: describing band b%04d panics: %s' % (where, b, str(p)[:200]))
         if ex.env['monitor'].errors:
             problems.append('%s: listing band b%04d reports errors: %s' % (where, b, [variant_name(ex, e) for e in ex.env['monitor'].errors][:3]))
         if gp != [p for _, p in want]:
@@ -934,11 +952,13 @@ def make_selection(prog, ids):
             st, ar = A.new_archive(ex)
             closed = {}
             headless = {}
+            emptytail = {}
             for b in ids:
-                # 0 closed, 1 open, 2 a bare directory (backup killed before it wrote the head), 3 a zero-length head (killed inside that write)
-                state = ex.concretize(ex.fresh_int('state%d' % b, 0, 3), 0, 3, 'band state')
+                # 0 closed, 1 open, 2 a bare directory (backup killed before it wrote the head), 3 a zero-length head (killed inside that write),
+                # 4 everything written but a zero-length tail (killed inside the last write)
+                state = ex.concretize(ex.fresh_int('state%d' % b, 0, 4), 0, 4, 'band state')
                 closed[b] = state == 0
-                if state >= 2:
+                if state in (2, 3):
                     headless[b] = 'no-head' if state == 2 else 'empty-head'
                     st.put_dir(A.band_name(b))
                     if state == 3:
@@ -949,7 +969,12 @@ def make_selection(prog, ids):
                 A.put_hunk(ex, st, b, 0, [A.mk_entry(ex, '/', 'Dir', 5, mode=0o755)])
                 if closed[b]:
                     A.put_tail(ex, st, b, 1)
+                if state == 4:
+                    st.put_file(A.band_name(b) + '/BANDTAIL', Raw(b''))
+                    emptytail[b] = True
+                    headless[b] = 'empty-tail'      # (not headless, but reported with the other leftovers of killed writes)
             ex.env['headless'] = headless
+            ex.env['emptytail'] = emptytail
             st.put_dir('unrelated-dir')
             st.mode = 'run'
             out = {}
